@@ -8,9 +8,16 @@ PROP = dict(
     assumptions=[],
 )
 MANIFEST = dict(
-    text="Coq theorems by complete enumeration lifted to forall: for every legal-shaped move (all 65 472 values on the 8x8 grid) the short "
-         "PTN, long PTN and playtak wire spellings parse back to the identical move and hence agree. The codec models are compared with the "
-         "implementation on the complete set of legal moves of sizes 3..8 (strings and parse results), and independent decoders of both "
-         "notations check that each spelling denotes the intended move.",
-    ref='5.11', technique='Coq proof by exhaustive computation (finite domain, bound in the statement) + exhaustive model/implementation differential + independent notation decoders',
-    note="Trusted: Coq kernel (vm_compute), extraction, transcription of ptn/move.go and playtak/move.go. The arbitrary-suffix annotation lemma is not yet proved (checked on 10 suffix shapes per move).")
+    text="Coq theorems. (1) By complete enumeration lifted to forall: for every legal-shaped move (all 65 472 values on the 8x8 grid) the short "
+         "PTN, long PTN and playtak wire spellings parse back to the identical move and hence agree. (2) Structural, for arbitrary byte lists: "
+         "any text accepted by the PTN move parser, followed by an annotation byte (! ? * ') and then ANY bytes, parses to the same move; hence "
+         "annotations_ignored: format_move[_long] m ++ c :: rest parses to m for every legal-shaped m, annotation byte c and suffix rest. "
+         "(3) No silent different move: whatever the PTN parser accepts is a legal-shaped move (square on the grid, one of the seven type codes, "
+         "Slides = 0 for placements, non-empty drops each >= 1 with total <= 8 for slides), so its canonical spellings parse back to it; whatever "
+         "the playtak wire parser accepts has its square on the grid, a real type code, Slides = 0 for placements and every drop <= 8. "
+         "The codec models are compared with the implementation on the complete set of legal moves of sizes 3..8 (strings and parse results, "
+         "with annotation suffixes), and independent decoders of both notations check that each spelling denotes the intended move.",
+    ref='5.11', technique='Coq proof by exhaustive computation (finite domain, bound in the statement) + structural Coq proofs over arbitrary byte lists + exhaustive model/implementation differential + independent notation decoders',
+    note="Trusted: Coq kernel (vm_compute), extraction, transcription of ptn/move.go and playtak/move.go. All five theorems of DESIGN 5.11 are proved in full. "
+         "Not a property of the code (and proved not to hold, PtnMoveFacts2.parse_server_accepts_zero_drop): the playtak wire parser does not check that drops are >= 1, "
+         "that their number equals the distance between the two squares, or that they sum to <= 8; such moves are refused by Position.Move, not by the parser.")
